@@ -17,6 +17,7 @@ from mdsa import match as M
 
 from .sem import F
 from .common import (
+    fold_str,
     Ctx,
     calls_named,
     files_subscripts,
@@ -69,6 +70,7 @@ def run(P, rep, tier):
     rep.attempt(r1_sinks, P, rep, ctx, whole_package=False)
     rep.attempt(r1b_open_rplus, P, rep, ctx)
     rep.attempt(r2_provenance, P, rep, ctx)
+    rep.attempt(r2_no_internal_truncation, P, rep, ctx)
     rep.attempt(r3_typestate, P, rep, ctx)
     rep.attempt(r4_overlay_writes, P, rep, ctx)
     from . import c11
@@ -265,6 +267,33 @@ def _fresh_record_vars(fi):
 def _rooted_at(e, names):
     ch = chain(e)
     return bool(ch) and ch[0][0] == "name" and ch[0][1] in names
+
+
+RECORD_CTORS = ("cls", "type(self)", "self.__class__", "IH5Record", "IH5MFRecord", "IH5")
+
+
+def r2_no_internal_truncation(P, rep, ctx):
+    """Only the user asks for mode 'w' (replace the whole record).  Library code that opens a record with a truncating mode,
+    or creates one with truncate=True outside the 'w' branch of the constructor, can wipe committed containers that happen
+    to live at that path."""
+    n = 0
+    for fi in P.functions.values():
+        if not isinstance(fi.node, (ast.FunctionDef, ast.AsyncFunctionDef)):
+            continue
+        for c in local_calls(fi.node):
+            fn = norm(c.func)
+            if fn in RECORD_CTORS or fn.split(".")[-1] in ("IH5Record", "IH5MFRecord"):
+                n += 1
+                mode = arg_or_kw(c, 1, "mode")
+                m = fold_str(P, fi, mode) if mode is not None else "r"
+                rep.check(m is None or not m.startswith("w") or fi.module.name not in IH5_MODULES + ("container.drivers", "container", "packer", "packer.utils", "packer.interface"), "C02.R2", fi.qual, f"record opened by library code with a non-truncating mode: {norm(c)[:60]}", fi.loc(c), construct=f"record open mode {norm(c)[:80]}",
+                          message=f"{fi.qual} opens a record with the truncating mode {m!r} ({norm(c)[:80]}): if a record already exists at that path its committed containers are deleted")
+            if call_attr(c) == "_create" and kwarg(c, "truncate") is not None:
+                tv = norm(kwarg(c, "truncate"))
+                okc = tv == "False" or (fi.qual == "ih5.record.IH5Record.__init__" and tv in ("mode == 'w'", "'w' == mode"))
+                rep.check(okc, "C02.R2", fi.qual, f"_create truncates only for the user's mode 'w': truncate={tv}", fi.loc(c), construct=f"_create truncate={tv}", message=f"{fi.qual} creates a record with truncate={tv}: existing committed containers are deleted without the user having asked for mode 'w'")
+    if n < 3:
+        raise AnalysisError(f"C02.R2: only {n} record constructions found in the package")
 
 
 def r2_provenance(P, rep, ctx):
